@@ -60,11 +60,12 @@ FLOORS = {
     'history:fault-hit': (0.5, 'history:fault-run'),
     'history:nested-collation': (0.10, 'history:base-run'),
     'history:array-map-operand-locking-collation': (0.25, 'history:base-run'),
+    'history:hof-consumer-of-collation-result': (0.08, 'history:base-run'),
     'env:canary-asked': (0.2, 'env:query'),
     'env:positive-control-ok': (0.9, 'env:batch'), 'env:grant-then-default-on-one-token': (0.25, 'env:query'),
     'env:dynamic-reference': (0.4, 'env:query'), 'env:granted-evaluation-sees-canary': (0.2, 'env:granted-evaluation'),
     'entities:entity-declaration': (0.4, 'entities:text'),
-    'entities:positive-control-ok': (0.9, 'entities:batch'),
+    'entities:positive-control-ok': (0.9, 'entities:batch'), 'entities:only-empty-valued-declarations': (0.1, 'entities:text'),
     'threads:locale-collation-job': (0.3, 'threads:case'),
     'localeenv:utf8-locale': (0.3, 'localeenv:config'),
 }
@@ -149,6 +150,17 @@ NESTED_TEMPLATES = {
     'nest-contains': ('2.0', "contains({A}, string(compare({A}, {B}, {C2})){C})"),
     'nest-some': ('2.0', "some $x in distinct-values(({A}, {B}){C}) satisfies contains($x, {A}, {C2})"),
     'nest-sort-key': ('3.1', "sort(({B}, {A}){C!}, function($x) {{ compare($x, {A}, {C2}) }})"),
+    # higher-order functions consuming a collation function's result lazily while the callback takes a locale collation
+    'nest-hof-for-each-index': ('3.0', "for-each(index-of(({A}, {B}, {A}), {A}{C}), function($i) {{ compare({A}, {B}, {C2}) }})"),
+    'nest-hof-filter-distinct': ('3.0', "filter(distinct-values(({A}, {B}, {A}){C}), function($x) {{ contains($x, {A}, {C2}) }})"),
+    'nest-hof-fold-left-index': ('3.0', "fold-left(index-of(({A}, {B}, {A}), {A}{C}), 0, function($acc, $i) {{ $acc + compare({A}, {B}, {C2}) }})"),
+    'nest-hof-fold-right-distinct': ('3.0', "fold-right(distinct-values(({A}, {B}){C}), '', function($x, $acc) {{ concat($acc, string(compare($x, {A}, {C2}))) }})"),
+    'nest-hof-for-each-pair': ('3.0', "for-each-pair(distinct-values(({A}, {B}, {A}){C}), index-of(({A}, {B}, {A}), {A}{C}), "
+                                      "function($x, $i) {{ compare($x, {A}, {C2}) }})"),
+    'nest-hof-for-each-sort': ('3.1', "for-each(sort(({B}, {A}){C}), function($x) {{ ends-with($x, {A}, {C2}) }})"),
+    'nest-hof-bang-index': ('3.0', "index-of(({A}, {B}, {A}), {A}{C}) ! compare({A}, {B}, {C2})"),
+    'nest-hof-filter-index': ('3.0', "filter(index-of(({B}, {A}, {A}), {A}{C}), function($i) {{ starts-with({A}, {B}, {C2}) }})"),
+    'nest-hof-apply-named': ('3.0', "for-each(index-of(({A}, {B}), {B}{C}), compare({A}, ?, {C2}))"),
     'nest-deep-lazy': ('2.0', "deep-equal(for $x in ({A}, {B}) return string(compare($x, {A}, {C2})), ('0', '1'){C})"),
 }
 PLAIN_EXPRS = [
@@ -171,6 +183,15 @@ PLAIN_EXPRS = [
     ('2.0', "string(1234567890123456789012345678901234.5)"), ('2.0', "xs:dayTimeDuration('PT0.000001S') * 1234567890123"),
     ('3.0', "format-number(12345678901234567890123456789012.5, '#.0')"),
     ('2.0', "seconds-from-dateTime(xs:dateTime('2000-01-01T00:00:01.123456789012345678901234567890'))"),
+    # character classes whose first part is a negated escape followed by another negated escape or a subtraction
+    # (their construction works on the process-global category subsets) ...
+    ('2.0', "matches('a', '[\\D\\S]')"), ('2.0', "matches('A', '[\\P{Lu}\\P{Ll}]')"), ('2.0', "matches('5', '[\\D-[x]]')"),
+    ('2.0', "matches('5', '[^\\D-[5]]')"), ('2.0', "replace('a1 B', '[\\W\\D]', '-')"), ('2.0', "string-join(tokenize('a 1b', '[\\S-[a]]'), '|')"),
+    ('2.0', "matches('x', '[\\P{Nd}\\P{L}]')"), ('2.0', "matches('Q', '[\\P{Lu}-[A-P]]')"), ('2.0', "replace('ab12', '[\\D\\W-[b]]', '.')"),
+    # ... and independent later regexes on the same categories
+    ('2.0', "matches('5', '\\p{Nd}')"), ('2.0', "matches('5', '[\\d]')"), ('2.0', "matches('A', '\\p{Lu}')"), ('2.0', "matches('\u06635', '^[\\d]+$')"),
+    ('2.0', "replace('aB1 ', '\\p{Lu}', '#')"), ('2.0', "matches(' ', '[\\s]')"), ('2.0', "matches('a_1', '^[\\w]+$')"),
+    ('2.0', "string-join(tokenize('a1b2', '\\p{Nd}'), '|')"), ('2.0', "matches('b', '\\p{Ll}')"), ('2.0', "replace('x5y', '[^\\d]', '')"),
 ]
 ENV_EXPRS = [
     "environment-variable('%s')" % CANARY_NAME, "available-environment-variables()", "environment-variable('PATH')",
@@ -181,7 +202,12 @@ XML_DOCS = [
     '<!DOCTYPE r [<!ENTITY e SYSTEM "file://{CANARY}">]><r>&e;</r>',
     '<!DOCTYPE r [<!ENTITY % p "<!ENTITY e \'vp-internal\'>"> %p;]><r>&e;</r>',
     '<r>&lt;ok&gt;</r>', '<r><a/>text</r>', '<r', '',
+    '<!DOCTYPE r [<!ENTITY e "">]><r>x&e;</r>', "<!DOCTYPE r [<!ENTITY e ''>]><r>x</r>", '<!DOCTYPE r [<!ENTITY e SYSTEM "">]><r>x</r>',
+    '<!DOCTYPE r [<!ENTITY % p "">%p;]><r>x</r>',
 ]
+
+_REGEX_FIRST = [i for i, (_v, e) in enumerate(PLAIN_EXPRS) if "'[\\D" in e or "'[\\P" in e or "'[^\\D-" in e or "'[\\W" in e or "'[\\S-" in e]
+_REGEX_LATER = [i for i, (_v, e) in enumerate(PLAIN_EXPRS) if i > max(_REGEX_FIRST) and ('matches(' in e or 'replace(' in e or 'tokenize(' in e)]
 
 # --------------------------------------------------------------------------
 # forked child plumbing
@@ -400,10 +426,22 @@ def _dec_tuple():
     return [c.prec, c.rounding, c.Emin, c.Emax, c.capitals, c.clamp, sorted(s.__name__ for s, v in c.traps.items() if v)]
 
 
+def _unicode_digest():
+    """digests of a few process-global code point sets: general categories of the installed Unicode data and the
+    \\s \\d \\w \\i \\c shortcut subsets that are already in the module cache (never filled from here)"""
+    from elementpath.regex import unicode_subsets as us
+    out = {}
+    for name in ('Nd', 'Lu', 'Ll', 'Zs'):          # two-letter categories are stored sets; one-letter ones are rebuilt per call
+        out[name] = hash(tuple(us.unicode_category(name)._codepoints))
+    for func, subset in list(us.__dict__.get('__subsets_cache', {}).items()):
+        out['cache:' + getattr(func, '__name__', '?')] = hash(tuple(subset._codepoints))
+    return out
+
+
 def _snapshot(S):
     import locale
     return {'lc': S.real_setlocale(locale.LC_COLLATE, None), 'lock': S.proxy.locked(), 'dec': _dec_tuple(),
-            'env': dict(os.environ)}
+            'env': dict(os.environ), 'uni': _unicode_digest()}
 
 
 def _restore(S, before):
@@ -419,6 +457,9 @@ def _restore(S, before):
     if dict(os.environ) != before['env']:
         os.environ.clear()
         os.environ.update(before['env'])
+    if any(_unicode_digest().get(k) != v for k, v in before.get('uni', {}).items()):
+        from elementpath.regex import install_unicode_data
+        install_unicode_data()           # rebuilds the installed data and clears the subsets cache
 
 
 def _parser_class(ver):
@@ -548,6 +589,9 @@ def _state_violations(before, after):
     if after['env'] != before['env']:
         ks = sorted(k for k in set(before['env']) | set(after['env']) if before['env'].get(k) != after['env'].get(k))
         v.append(['environ-changed', 'unchanged', ks[:5]])
+    changed = sorted(k for k, d in before.get('uni', {}).items() if after.get('uni', {}).get(k, d) != d)
+    if changed:
+        v.append(['unicode-data-changed', 'global code point sets unchanged', changed[:6]])
     return v
 
 
@@ -667,7 +711,7 @@ def _judge_run(case, k, rec, discs):
             rec.notes.append(f'inconclusive: history child {what}: {canon(case)[:300]} fault={k}')
         return None
     recs = r['ok']['steps']
-    failed_coll = fail_then_lock = nested = arrmap = False
+    failed_coll = fail_then_lock = nested = arrmap = hof = False
     hit_any = False
     for i, (step, sr) in enumerate(zip(steps, recs)):
         out, label = sr['out'], sr['label']
@@ -718,12 +762,17 @@ def _judge_run(case, k, rec, discs):
                 failed_coll = True
             if step['k'] == 'nest' and _coll_class(step['c']) == 'locking' and _coll_class(step.get('c2')) == 'locking':
                 nested = True
+            if step['k'] == 'nest' and step['t'].startswith('nest-hof-') and _coll_class(step['c']) == 'locking' \
+                    and _coll_class(step.get('c2')) == 'locking':
+                hof = True
             if step['k'] == 'coll' and step['t'] in _ARRAY_MAP_TEMPLATES and _coll_class(step['c']) == 'locking':
                 arrmap = True
     if rec is not None:
         classes = ['history:run', 'history:base-run' if k == 0 else 'history:fault-run']
         if fail_then_lock:
             classes.append('history:fail-then-locking-step')
+        if hof and k == 0:
+            classes.append('history:hof-consumer-of-collation-result')
         if arrmap and k == 0:
             classes.append('history:array-map-operand-locking-collation')
         if nested and k == 0:
@@ -930,8 +979,10 @@ def _entity_text(draw):
     n = draw(st.integers(1, 3))
     kinds = ['internal', 'external-file', 'external-public', 'parameter', 'nested', 'unparsed', 'param-external',
              'element', 'attlist', 'notation', 'comment', 'pi']
+    empties = ['internal-empty', 'external-empty', 'parameter-empty', 'public-empty']
+    only_empty = draw(st.integers(0, 3)) == 0          # DOCTYPEs declaring nothing but empty-valued entities
     for _ in range(n):
-        decls.append({'kind': draw(st.sampled_from(kinds + kinds[:7])), 'name': draw(st.sampled_from(_ENT_NAMES)),
+        decls.append({'kind': draw(st.sampled_from(empties if only_empty else kinds + kinds[:7] + empties)), 'name': draw(st.sampled_from(_ENT_NAMES)),
                       'q': draw(st.sampled_from(['"', "'"])), 'ws': draw(st.sampled_from(_WS))})
     return {
         'prolog': draw(st.sampled_from(['', '', '<?xml version="1.0"?>', '<?xml version="1.0" encoding="UTF-8"?>',
@@ -987,6 +1038,19 @@ def _render_doc(t, canary_path):
             declares = True
         elif k == 'unparsed':
             decl_txt.append(f'<!NOTATION gif SYSTEM {q}image/gif{q}><!ENTITY {n} SYSTEM {q}file://{canary_path}{q} NDATA gif>')
+            declares = True
+        elif k == 'internal-empty':
+            decl_txt.append(f'<!ENTITY {n} {q}{q}>')
+            ent_names.append(n)
+            declares = True
+        elif k == 'external-empty':
+            decl_txt.append(f'<!ENTITY {n} SYSTEM {q}{q}>')
+            declares = True
+        elif k == 'public-empty':
+            decl_txt.append(f'<!ENTITY {n} PUBLIC {q}{q} {q}{q}>')
+            declares = True
+        elif k == 'parameter-empty':
+            decl_txt.append(f'<!ENTITY % {n} {q}{q}>{ws}%{n};')
             declares = True
         elif k == 'element':
             decl_txt.append(f'<!ELEMENT {root} ANY>')
@@ -1066,7 +1130,8 @@ def judge_entities(case, rec: Recorder | None = None) -> list[Disc]:
         out = sr['out']
         kinds = sorted({d['kind'] for d in t['decls']}) if t['doctype'] in ('internal', 'system+internal') else []
         dclass = '+'.join(k for k in kinds if k in ('internal', 'external-file', 'external-public', 'parameter', 'nested',
-                                                    'unparsed', 'param-external')) or 'no-entity'
+                                                    'unparsed', 'param-external', 'internal-empty', 'external-empty',
+                                                    'parameter-empty', 'public-empty')) or 'no-entity'
         where = f'fn={t["fn"]} api={t["api"]} doc={sr["doc"]!r}'
         for kind, exp, obs in sr['viol']:
             discs.append(Disc(f'C19/{kind}/entities', exp, obs, where))
@@ -1081,7 +1146,8 @@ def judge_entities(case, rec: Recorder | None = None) -> list[Disc]:
                      sample={'check': 'entities', 'doc': sr['doc'], 'fn': t['fn'], 'outcome': out[:2]},
                      classes=['entities:text'] + (['entities:entity-declaration'] if sr['declares'] else [])
                      + [f'entities:outcome-{out[0]}' + ('' if sr['declares'] else '-nodecl')]
-                     + ([f'entities:kind-{k}' for k in kinds] if sr['declares'] else []))
+                     + ([f'entities:kind-{k}' for k in kinds] if sr['declares'] else [])
+                     + (['entities:only-empty-valued-declarations'] if sr['declares'] and kinds and all(k.endswith('-empty') for k in kinds) else []))
     if rec is not None:
         rec.cls('entities:batch')
         if r['ok']['positive']:
@@ -1523,6 +1589,12 @@ def _sweep_cases():
                 steps = [{'api': api, 'ver': '3.1', 'k': 'plain', 'i': i}
                          for i in range(lo, min(lo + 8, len(PLAIN_EXPRS)))]
                 yield {'cfg': {'lc': 'C', 'prec': prec, 'lxml': False}, 'steps': steps, 'fault': 0}
+    # every "negated-first class" regex followed by every later regex, with fresh selectors, in one process
+    for api in ('select', 'selector'):
+        for first in _REGEX_FIRST:
+            steps = [{'api': api, 'ver': '3.1', 'k': 'plain', 'i': first}] + \
+                    [{'api': 'selector' if api == 'select' else 'select', 'ver': '3.1', 'k': 'plain', 'i': j} for j in _REGEX_LATER]
+            yield {'cfg': {'lc': 'C', 'prec': 28, 'lxml': False}, 'steps': steps, 'fault': 0}
 
 
 def run_job(job, rec: Recorder):
